@@ -215,6 +215,9 @@ type latency struct{ write, read, list, scan time.Duration }
 type fakeCase struct {
 	mu         sync.Mutex
 	assign     *proto.ShardAssignments
+	// earlier assignments: an operation that was already pending when a new assignment was pushed is still
+	// addressed according to the assignment it was routed with (the real server would refuse it)
+	prevAssigns []*proto.ShardAssignments
 	subs       []chan *proto.ShardAssignments
 	done       chan struct{}
 	stored     map[int64][]string // per shard, sorted in key order
@@ -279,6 +282,9 @@ func (fc *fakeCase) stop() {
 func (fc *fakeCase) push(a *proto.ShardAssignments) {
 	fc.mu.Lock()
 	defer fc.mu.Unlock()
+	if fc.assign != nil {
+		fc.prevAssigns = append(fc.prevAssigns, fc.assign)
+	}
 	fc.assign = a
 	for _, s := range fc.subs {
 		select {
@@ -459,9 +465,11 @@ func (fc *fakeCase) leads(addr string, shard int64) bool {
 	if fc.assign == nil {
 		return false
 	}
-	for _, a := range fc.assign.Namespaces[fakeNamespace].Assignments {
-		if a.Shard == shard && a.Leader == addr {
-			return true
+	for _, as := range append([]*proto.ShardAssignments{fc.assign}, fc.prevAssigns...) {
+		for _, a := range as.Namespaces[fakeNamespace].Assignments {
+			if a.Shard == shard && a.Leader == addr {
+				return true
+			}
 		}
 	}
 	return false
